@@ -188,8 +188,8 @@ class QueryPlanner:
     def resolve_database_table(self, node: Identifier):
         # resolves integration name and table name
 
-        if not isinstance(node, Identifier):
-            raise PlanningException(f'Table name is expected, got: {node.__class__.__name__}')
+        if not isinstance(node, Identifier) or not all(isinstance(part, str) for part in node.parts):
+            raise PlanningException(f'Table name is expected, got: {node}')
 
         parts = node.parts.copy()
         alias = None
